@@ -189,7 +189,17 @@ def inject_ghost_code(fi, contract):
             body[k:k] = stmts
             continue
         where = 'after' if 'after' in cl.kw else 'before'
-        anchor_txt = ast.unparse(ast.parse(ast.literal_eval(cl.kw[where])).body[0])
+        alts = ast.literal_eval(cl.kw[where])
+        alts = [alts] if isinstance(alts, str) else list(alts)       # alternative anchors, tried in order (robust against edits of one line)
+        present = {ast.unparse(x) for x in ast.walk(node) if isinstance(x, ast.stmt)}
+        anchor_txt = None
+        for a in alts:
+            t = ast.unparse(ast.parse(a).body[0])
+            if t in present:
+                anchor_txt = t
+                break
+        if anchor_txt is None:
+            raise Unsupported('ghost code anchor %r not found in %s' % (alts[0], fi.qualname))
         done = False
         for parent in ast.walk(node):
             for fld in ('body', 'orelse', 'finalbody'):
